@@ -81,3 +81,19 @@ chk("C26", "proof",
     "As C25 for btree_delete_set with erase: the proved validator and query theorems apply to every dumped state of mixed insert/erase/query histories (validated_erase_step: a validated pair of dumps whose sets differ by the erased key has the right elements and membership); concurrent inserts as C25.",
     "Trusted: as C25; erase's borrow/merge logic is validated per state, not modelled.",
     "Coq-proved well-formedness validator + query refinement, run on real node-graph dumps of insert/erase histories", "DESIGN.md §6 C26")
+
+chk("C16", "translation_validation",
+    "Per-program validation: each generated flat program is wrapped into components five ways (plain, type parameter, inheritance with split rules, overridable relation with junk base rules, two nested instantiation levels); every instantiated relation must hold exactly the tuples of the flat relation per the proved reference. ComponentInstantiation.cpp itself is not modelled.",
+    TV_NOTE, "translation validation: component-wrapping metamorphic variants against the Coq-proved reference evaluator", "DESIGN.md §6 C16")
+chk("C20", "proof",
+    "Theorems (Coq, closed): in the semi-naive scheme the per-round deltas are pairwise disjoint, disjoint from the preamble result, and their union with it is the final relation; for list-backed relations |R| = |R0| + sum of delta sizes -- the identity behind the profiler's relation size. Tied per program: outputs with -p at -j1/4/16 equal the proved reference, and every TUPLES entry of `souffleprof -c rel` equals the relation's true size.",
+    "Trusted: Coq kernel; souffleprof's table layout (parsed by position); the profile event plumbing is not modelled.",
+    "Coq counting theorem over the semi-naive scheme + per-program comparison of profiled sizes with true sizes", "DESIGN.md §6 C20")
+chk("C22", "proof",
+    "Theorems (Coq, closed): a counter whose uses are atomic fetch-and-adds hands out pairwise distinct values under every interleaving of any number of threads (below 2^31 draws), and the value set is schedule independent. Tied by runs: programs with four autoinc() uses in parallelisable rules at -j1..16 with perturbed schedules, interpreter and compiled: all counter values distinct, one per derivation.",
+    "Trusted: Coq kernel; the atomicity of std::atomic<RamDomain>::operator++ is the model's only step (assumption); OpenMP scheduling perturbed, not enumerated.",
+    "Coq uniqueness theorem for an atomic counter + exploration of real parallel runs checking the predicate", "DESIGN.md §6 C22")
+chk("C23", "proof",
+    "Theorems (Coq, closed): the semi-naive loop with the extra exit `|R| >= n` (evaluated on the main relation before the round's merge, as the emitted RAM does -- accepted and fed to loop_run by the proved validator) yields a subset of the least fixpoint, equals it when the fixpoint holds fewer than n tuples of R, and otherwise holds at least n. Tied per program: generated recursive programs with .limitsize on each recursive relation for limits around its unlimited size, judged against the proved reference.",
+    "Trusted: Coq kernel; generator and oracle glue; programs restricted to positive recursion (limits interact non-monotonically with negation).",
+    "Coq theorems on the limited loop + per-program check of the three clauses against the proved reference", "DESIGN.md §6 C23")
